@@ -81,7 +81,9 @@ Definition item_price (it : item) (cur : Z) (c : nat) (rates : list xrate) : opt
     else match find_alt cur (it_alts it) with
          | Some v => Some (rescale_up v c)
          | None => match find_rate ic cur rates with
-                   | Some r => Some (rescale (mul price r) c)   (* ExchangeRate.Convert *)
+                   (* ExchangeRate.Convert, as repaired: the amount is raised to at least the destination
+                      currency's decimals before Multiply (which rounds to its receiver's decimals) *)
+                   | Some r => Some (rescale (mul (match_precision price (zero_of c)) r) c)
                    | None => None
                    end
          end
@@ -373,7 +375,9 @@ Definition calculate (d : doc) : calc_result :=
         let total := match included with Some ti => sub total1 ti | None => total1 end in
         let tax := precise_or taxsum taxsum_r in
         let twt := add total tax in
-        let payable := match d_rounding d with Some r => add twt r | None => twt end in
+        (* t.Rounding is rescaled to zero.Exp() in place; payable adds the rescaled value (as repaired) *)
+        let rounding := match d_rounding d with Some r => Some (rescale r c) | None => None end in
+        let payable := match rounding with Some r => add twt r | None => twt end in
         let advs := map (advance_amount c twt) (d_advances d) in
         let advances := sum_opt c advs in
         let due := match advances with Some a => Some (sub payable a) | None => None end in
@@ -384,7 +388,7 @@ Definition calculate (d : doc) : calc_result :=
                          (map (fun p => present_ddc c (fst p) (snd p)) dds)
                          (map (fun p => present_ddc c (fst p) (snd p)) ccs)
                          (map R advs) (map (due_amount c payable) (d_dues d))
-                         cats taxsum_r taxsum)
+                         cats taxsum_r taxsum rounding)
       end
     end
   end.
